@@ -121,6 +121,32 @@ def check_source(text, uri, M, case, all_opts=True, idx=0):
                 M.violation("C17.source", {"what": "source envelope is not (uri, text unchanged, Gherkin media type)"}, c)
 
 
+def check_stop_mode(text, uri, M, case):
+    """A stream whose parser stops at the first error yields exactly one parseError (the first) for a rejected source
+    and the usual envelopes for an accepted one."""
+    st0, ref = direct(text, uri)
+    M.count("enum_calls")
+    st, envs, opened, _ = observe.enum_observed(text, uri=uri, options=(False, True, True), stop=True)
+    if st != "ok":
+        mech = observe.F1 if (envs.get("origin", "").startswith("token_scanner.py:__init__") and os.path.exists(text)) else None
+        M.violation("C17.crash", {"what": "exception escaped GherkinEvents.enum (stop-at-first-error parser)", **envs}, case, mechanism=mech)
+        return
+    if st0 == "accepted":
+        doc, pickles = ref
+        want = [{"gherkinDocument": doc}] + [{"pickle": p} for p in pickles]
+    else:
+        want = ref[:1]
+    if envs != want:
+        M.violation("C17.sequence", {"what": "stop-at-first-error stream: envelopes differ from the documented sequence / the first error",
+                                     "status": st0, "got": short(envs, 300), "want": short(want, 300)}, case)
+    for e in envs:
+        M.count("envelopes_validated")
+        pr = messages.validate_envelope(e)
+        if pr:
+            M.violation("G7", {"what": "envelope does not have the Cucumber Messages shape", "problems": pr[:3]}, case)
+            break
+
+
 def check_stream(sources, opts, M, case):
     M.case(h64([sources, opts]))
     M.count("streams_checked")
@@ -257,6 +283,8 @@ def run_shard(spec, M):
             r = rng(seed, ID, "src", i)
             text = make_source(r, i)
             check_source(text, "features/a b/%d.feature" % i, M, {"kind": "text", "text": text, "uri": "features/a b/%d.feature" % i})
+            if "\x00" not in text:
+                check_stop_mode(text, "features/a b/%d.feature" % i, M, {"kind": "text", "text": text, "uri": "features/a b/%d.feature" % i})
             if i % 499 == 0:
                 M.sample({"text": short(text, 300)})
     elif fam == "streams":
@@ -280,6 +308,7 @@ def replay(case, M):
             run_f1(M)
         else:
             check_source(case["text"], case.get("uri", "u"), M, case)
+            check_stop_mode(case["text"], case.get("uri", "u"), M, case)
     elif k == "stream":
         check_stream(case["sources"], tuple(case["options"]), M, case)
     elif k == "corpus":
